@@ -231,10 +231,13 @@ Fixpoint drop_space (s : list N) : list N :=
   match s with c :: r => if c_isspace c then drop_space r else s | [] => [] end.
 Definition strto (base : Z) (s : list N) : option (bool * Z) :=   (* None: no conversion; Some (negative, magnitude) *)
   let s1 := drop_space s in
-  let '(neg, s2) := match s1 with 45%N :: r => (true, r) | 43%N :: r => (false, r) | _ => (false, s1) end in
+  let '(neg, s2) := match s1 with
+                     | c :: r => if (c =? 45)%N then (true, r) else if (c =? 43)%N then (false, r) else (false, s1)
+                     | [] => (false, s1)
+                     end in
   let s3 := match s2 with
-            | 48%N :: x :: d :: r =>
-                if (base =? 16) && ((x =? 120)%N || (x =? 88)%N) && (match digit_in 16 d with Some _ => true | None => false end)
+            | z :: x :: d :: r =>
+                if (z =? 48)%N && (base =? 16) && ((x =? 120)%N || (x =? 88)%N) && (match digit_in 16 d with Some _ => true | None => false end)
                 then d :: r else s2
             | _ => s2
             end in
@@ -489,8 +492,9 @@ Definition cp_run (interp_allowed : bool) (s : list N) : cpres :=
   cp_bind (cp_feed interp_allowed cp_init s) cp_finish.
 
 (* Quoted_String's lambda over the bytes between the quotes (`s` runs from start+1 to end, `*end` is the closing quote) *)
-Definition split_brace (s : list N) : list N * list N :=
-  ((fix go (s : list N) (acc : list N) := match s with [] => (acc, []) | c :: r => if (c =? 125)%N then (acc, s) else go r (acc ++ [c]) end) s []).
+Fixpoint split_brace_aux (s acc : list N) : list N * list N :=
+  match s with [] => (acc, []) | c :: r => if (c =? 125)%N then (acc, s) else split_brace_aux r (acc ++ [c]) end.
+Definition split_brace (s : list N) : list N * list N := split_brace_aux s [].
 Fixpoint qs_scan (fuel : nat) (l c : Z) (cp0 : cp) (segs : list (list N * list N)) (s : list N) : qs_result :=
   match fuel with
   | O => QSFuel
@@ -759,6 +763,12 @@ Section Scanners.
     | Some e => Some (snd e)
     | None => None
     end.
+  (* the recogniser as it was before the spelling comparison was added (fix 70706ab): the hash alone decides *)
+  Definition classify_hash_only (text : list N) : option kwcase :=
+    let h := fnv1a (fnv_basis K) (fnv_prime K) in
+    match find (fun e => N.eqb (h (fst e)) (h text)) (kw_cases K) with Some e => Some (snd e) | None => None end.
+  Definition is_reserved_hash_only (s : list N) : bool :=
+    let h := fnv1a (fnv_basis K) (fnv_prime K) in existsb (fun w => N.eqb (h w) (h s)) (rw_hashed K).
   Definition kw_value (k : kwcase) (start : Position) : constval :=
     match k with
     | KW_true => KBool true | KW_false => KBool false
